@@ -3,8 +3,8 @@
 first = verdict of the first run of that change with the checks as they were then; after = verdict of the
 latest re-run after the checks were strengthened (empty when the first run already caught it)."""
 import os, sys, re
-logs_first = ['/tmp/seeded_round123.tsv', '/tmp/run_seeded_r4.log', '/tmp/run_seeded_r5.log', '/tmp/run_seeded_r6.log', '/tmp/run_seeded_r7.log', '/tmp/run_seeded_r8.log']
-logs_after = ['/tmp/seeded_after.tsv', '/tmp/seeded_r5_after.tsv', '/tmp/run_seeded_r7.log', '/tmp/reverts.tsv', '/tmp/seeded_final_after.tsv', '/tmp/run_seeded_r8b.log', '/tmp/run_seeded_r8c.log']
+logs_first = ['/tmp/seeded_round123.tsv', '/tmp/run_seeded_r4.log', '/tmp/run_seeded_r5.log', '/tmp/run_seeded_r6.log', '/tmp/run_seeded_r7.log', '/tmp/run_seeded_r8.log', '/tmp/run_seeded_r8d.log']
+logs_after = ['/tmp/seeded_after.tsv', '/tmp/seeded_r5_after.tsv', '/tmp/run_seeded_r7.log', '/tmp/reverts.tsv', '/tmp/seeded_final_after.tsv', '/tmp/run_seeded_r8b.log', '/tmp/run_seeded_r8c.log', '/tmp/run_seeded_r8e.log']
 def rd(f):
     out = []
     if not os.path.exists(f): return out
